@@ -76,13 +76,19 @@ def has_walrus_index_or_set(src):
     return False
 
 
+def _needs_escape(c):
+    """mirror of the unparser's rule on the unchanged tree: quotes and the backslash, everything
+    up to U+00FF that is not printable, lone surrogates; every other character is written raw"""
+    o = ord(c)
+    return c in "\\'\"" or (o <= 255 and not (32 <= o < 127 or (o > 127 and c.isprintable()))) or 0xD800 <= o <= 0xDFFF
+
+
 def has_field_literal_needing_escape(src):
     import ast
     for n in ast.walk(ast.parse(src)):
         if isinstance(n, ast.FormattedValue):
             for m in ast.walk(n.value):
-                if isinstance(m, ast.Constant) and isinstance(m.value, str) and any(
-                        c in "\\'\"" or not c.isprintable() for c in m.value):
+                if isinstance(m, ast.Constant) and isinstance(m.value, str) and any(_needs_escape(c) for c in m.value):
                     return True
                 if isinstance(m, ast.Constant) and isinstance(m.value, bytes):
                     return True
